@@ -381,6 +381,11 @@ fn make_style_sections<'a>(
     let mut curr = 0;
     for (start_, end_) in submatches {
         let (start, end) = (*start_, *end_);
+        // Submatch coordinates come from the input (and are shifted heuristically when tabs
+        // are expanded): ignore any that are not ordered, valid byte ranges of `line`.
+        if start < curr || line.get(start..end).is_none() {
+            continue;
+        }
         if start > curr {
             sections.push((non_match_style, &line[curr..start]))
         };
